@@ -14,18 +14,28 @@ THEOREMS = [P + t for t in (
     "le3_refl", "le3_trans", "le3_antisymm", "fits_iff", "sortHead_mem", "sortHead_minimal",
     "sizing_sufficient", "sizing_pareto_minimal", "sizing_fallback", "class_lemma", "name_caps_agree",
     "current_last_dominates", "current_names_agree",
+    "sizing_sufficient_minimal", "unsatisfiable_iff_exceeds", "sizing_fallback_any_dimension", "satisfiable_of_within",
+    "current_last", "current_fallback", "current_sizing_total",
     "lookup_finds_own_entry", "current_no_shadow", "current_wf", "generated_matches_entry", "generate_not_found",
-    "units_spec", "enum_length", "current_enum_nodup")]
+    "generate_ok_shape", "generated_service", "generate_ok_of_consistent", "catalogued_model_generates",
+    "current_models_generate", "current_type_rules", "portBw_spec",
+    "units_spec", "enum_length", "enum_exact", "current_enum_members_resolve", "current_enum_nodup",
+    "allocObjs_eq", "sessionObjs_bounds", "generated_objects_fresh")]
 TRUSTED_BASE = [
-    "gen/catalog.py: JSON tables, AST shape of map_capacities_to_instance (filter lambda, sort, index of head, last key) and the constants of generate_component",
+    "gen/catalog.py + gen/symexec.py: the filter predicate is read off a symbolic execution of map_capacities_to_instance on a probe "
+    "catalogue; the decision structure (catalogue order, sort head, first equal key, last key) is replayed on ~7.5k probe cases; the "
+    "instance table is the one list_instances() returns; the per-type rules, separators, unit rule, lookup rule, enumeration names and "
+    "object freshness of generate_component are probed on synthetic catalogue entries of every ComponentType",
     "CPython list.sort under Capacities.__lt__ (componentwise <=) is MODELLED by Catalog.sortHead (running head); validated on every run "
     "against the implementation on both ends of every threshold class of the current catalogue (complete by class_lemma)",
     "instance names are distinct because the catalogue is a JSON object loaded into a dict (translator rejects duplicates); not re-checked in the kernel (quadratic)",
-    "Model/Catalog.lean generate mirrors generate_component after type/model resolution; uuid4 ids are modelled as 'library-generated' (none)",
+    "Model/Catalog.lean generate mirrors generate_component after type/model resolution; uuid4 ids are modelled as 'library-generated' (none); "
+    "object identity is modelled as an allocation counter (sessionObjs), compared with the identities of the real objects of a session",
 ]
 ASSUMPTIONS = ["requests are non-negative integers in core/ram/disk; the other capacity fields of a request are 0 (the filter ignores them, the sort compares catalogue entries only)"]
-RULE = ("sizing: every request on the grid {0} ∪ {v, v+1 (quick) | v-1, v, v+1 (thorough)} per dimension over the catalogue's distinct values (both ends of every threshold class); "
+RULE = ("sizing: off-grid requests (random, huge in one/two/three dimensions) and every request on the grid {0} ∪ {v, v+1 (quick) | v-1, v, v+1 (thorough)} per dimension over the catalogue's distinct values (both ends of every threshold class); "
         "components: every catalogue entry and alias × id/label/parent/ns-id argument combinations incl. wrong lengths and unknown models; "
+        "sessions: every entry generated twice in a row (with and without caller labels) and mixed sequences, object identities numbered by first appearance; "
         "distinct by request / argument tuple; non-trivial = request fits at least one and not all entries, or component has interfaces")
 EXHAUSTIVE = True
 
@@ -45,6 +55,20 @@ def _grid(thorough):
                 pts.add(max(v - 1, 0))
         dims.append(sorted(pts))
     return dims
+
+
+def offgrid(rng, n):
+    """requests that are NOT on the catalogue grid: random small/medium values and huge values in some dimensions"""
+    out = [[10 ** 12, 0, 0], [0, 10 ** 12, 0], [0, 0, 10 ** 12], [10 ** 12, 10 ** 12, 0], [2 ** 64, 2 ** 64, 2 ** 64], [65, 1, 1], [1, 257, 1], [1, 1, 1001]]
+    for _ in range(n):
+        r = [rng.randrange(0, 70), rng.randrange(0, 300), rng.randrange(0, 1100)]
+        k = rng.random()
+        if k < 0.15:
+            r[rng.randrange(3)] = rng.choice([10 ** 6, 2 ** 31, 2 ** 63, 10 ** 20])
+        elif k < 0.3:
+            r[rng.randrange(3)] = 0
+        out.append(r)
+    return out
 
 
 def impl_pick(req):
@@ -146,6 +170,84 @@ def _poison(cs, labs):
         nsi.network_services.clear()
     except Exception:
         pass
+
+
+def _library_objects(cs, labs):
+    """the mutable objects the library made for this component, in a fixed order (cf. Model/Catalog.lean objCount)"""
+    out = [cs]
+    nsi = cs.network_service_info
+    if nsi is None:
+        return out
+    nss = list(nsi.network_services.values())
+    ns = nss[0]
+    out += [nsi, ns, ns.interface_info]
+    for isl in ns.interface_info.interfaces.values():
+        out.append(isl)
+        out.append(isl.get_capacities())
+        lab = isl.get_labels()
+        if not any(l is lab for l in (labs or [])):
+            out.append(lab)
+    return out
+
+
+def impl_session(req):
+    """req = ["session", [[model, type, ids, labels], ...]] -> per successfully generated component the identity numbers of
+    its library-made objects (numbered by first appearance over the whole session; all fresh <=> consecutive numbers)"""
+    from fim.slivers.component_catalog import ComponentCatalog
+    from fim.slivers.attached_components import ComponentType
+    seen, keep, out, made, info = {}, [], [], [], []
+    for model, ctype, ids, labels in req[1]:
+        labs = None if labels is None else [_mk_label(x) for x in labels]
+        try:
+            cs = ComponentCatalog().generate_component(name="nm", ctype=ComponentType[ctype], model=model,
+                                                       interface_node_ids=None if ids is None else list(ids), interface_labels=labs)
+        except Exception:
+            continue
+        objs = _library_objects(cs, labs)
+        keep.append((cs, labs, objs))
+        out.append([seen.setdefault(id(o), len(seen)) for o in objs])
+        made.append((cs, labs))
+        info.append((ctype, model, [type(o).__name__ for o in objs]))
+    for cs, labs in made:
+        _poison(cs, labs)
+    _SESSION_INFO[canon(req)] = info
+    return ["ok", out]
+
+
+_SESSION_INFO = {}
+
+
+def session_oracle(req, reply, res):
+    """objects the library makes for a component belong to that component alone: nothing is handed out twice"""
+    info = _SESSION_INFO.get(canon(req), [])
+    owner = {}
+    for k, ids in enumerate(reply[1]):
+        for pos, n in enumerate(ids):
+            if n in owner:
+                ctype, model, classes = info[k] if k < len(info) else ("?", "?", [])
+                cls = classes[pos] if pos < len(classes) else "?"
+                res.violation("C18:component:%s:shared-object:%s" % (ctype, cls),
+                              "two generated components (or two ports of one) hold the very same mutable %s object: changing one changes the other" % cls,
+                              {"request": req}, observed={"component": k, "position": pos, "first_owner": owner[n]})
+                return
+            owner[n] = (k, pos)
+
+
+def session_requests(cat, rng):
+    def args(c, with_labels):
+        n = len(c.get("Interfaces", {}) or {})
+        if not with_labels:
+            return [c["Model"], c["Type"], None, None]
+        return [c["Model"], c["Type"], ["id%d" % i for i in range(n)], [["list", 2] if i % 2 else ["none"] for i in range(n)]]
+    twice = []
+    for c in cat:
+        twice += [args(c, False), args(c, False)]
+    lab = []
+    for c in cat:
+        lab += [args(c, True), args(c, False), args(c, True)]
+    mixed = [args(rng.choice(cat), rng.random() < 0.4) for _ in range(30)] + [["NoSuchModel", "GPU", None, None]]
+    alias = [[a, c["Type"], None, None] for c in cat for a in (c.get("AlsoModels") or [])] * 2
+    return [["session", twice], ["session", lab], ["session", mixed], ["session", alias]]
 
 
 def _uuidish(s):
@@ -259,7 +361,7 @@ def comp_oracle(cat, req, reply, res):
             bad("speed", "interface speed differs from the catalogue", observed=i["bw"], expected=want_bw)
         if i["kind"] != want_kind:
             bad("kind", "interface kind is wrong for this component type", observed=i["kind"], expected=want_kind)
-        spec = labels[k] if labels is not None else ["none"]
+        spec = labels[k] if labels is not None and k < len(labels) else ["none"]   # (too few labels: nothing is demanded of that port)
         want_units = spec[1] if spec[0] == "list" else 1
         if i["units"] != want_units:
             bad("units-from-%s-bdf" % spec[0], "unit count is not the number of devices behind the interface (1 unless the bdf label is a list)",
@@ -268,7 +370,7 @@ def comp_oracle(cat, req, reply, res):
             bad("ids-positional", "caller-supplied id landed on the wrong interface", observed=i["nodeId"], expected=ids[k])
         if ids is None and i["nodeId"] is not None:
             bad("ids-generated", "library-generated interface id is not a uuid4", observed=i["nodeId"])
-        if labels is not None and i["labelIdx"] != k:
+        if labels is not None and k < len(labels) and i["labelIdx"] != k:
             bad("labels-positional", "caller-supplied labels landed on the wrong interface", observed=i["labelIdx"], expected=k)
         want_ln = [p] * spec[1] if spec[0] == "list" else [p]
         if i["localNames"] != want_ln or i["localIsList"] != (spec[0] == "list"):
@@ -317,7 +419,10 @@ def _run(ctx, res, with_model, with_oracle, thorough=None):
     dims = _grid(thorough)
     grid = list(itertools.product(*dims))
     cat, creqs = comp_requests(ctx.sub_rng("comp"), thorough)
-    reqs = [["pick"] + list(r) for r in grid] + [["caps", n] for n, _ in entries[::7]] + [["caps", "no.such"]] + [["enum"]] + creqs
+    off = offgrid(ctx.sub_rng("offgrid"), 400 if not thorough else 4000)
+    sess = session_requests(cat, ctx.sub_rng("session"))
+    reqs = ([["pick"] + list(r) for r in grid] + [["pick"] + r for r in off] + [["caps", n] for n, _ in entries[::7]] + [["caps", "no.such"]]
+            + [["enum"]] + creqs + sess)
     key = (thorough, ctx.seed)
     impl = _CACHE.get(key)
     for r in (reqs if impl is None else []):
@@ -330,6 +435,8 @@ def _run(ctx, res, with_model, with_oracle, thorough=None):
         elif r[0] == "enum":
             import fim.slivers.component_catalog as cc
             impl.append(["ok", [m.name for m in cc.ComponentModelType]])
+        elif r[0] == "session":
+            impl.append(impl_session(r))
         else:
             impl.append(impl_gen(r))
     nall = len(entries)
@@ -345,6 +452,9 @@ def _run(ctx, res, with_model, with_oracle, thorough=None):
                 res.nontrivial.add(canon(r))
         elif r[0] == "gen" and i[0] == "ok" and i[1]["ifaces"]:
             res.nontrivial.add(canon(r))
+        elif r[0] == "session":
+            res.count("session:components", len(i[1]))
+            res.count("session:objects", sum(len(x) for x in i[1]))
     if with_model:
         model = LeanDriver("C18").run([json.dumps(r) for r in reqs])
         for r, i, m in zip(reqs, impl, model):
@@ -362,6 +472,8 @@ def _run(ctx, res, with_model, with_oracle, thorough=None):
                     sizing_oracle(tuple(r[1:]), i[1], entries, res)
             elif r[0] == "gen":
                 comp_oracle(cat, r, i, res)
+            elif r[0] == "session":
+                session_oracle(r, i, res)
         enum_oracle(cat, res)
         res.sample({"request": reqs[3], "impl": impl[3], "oracle": "sufficient / Pareto-minimal / fallback / name-capacities"})
 
@@ -383,7 +495,9 @@ def replay(ctx, payload):
     from fim.slivers.instance_catalog import InstanceCatalog
     r = Result()
     case = payload["case"]
-    if "request" in case and isinstance(case["request"], list) and case["request"] and case["request"][0] == "gen":
+    if "request" in case and isinstance(case["request"], list) and case["request"] and case["request"][0] == "session":
+        session_oracle(case["request"], impl_session(case["request"]), r)
+    elif "request" in case and isinstance(case["request"], list) and case["request"] and case["request"][0] == "gen":
         cat, _ = comp_requests(ctx.sub_rng("comp"), False)
         comp_oracle(cat, case["request"], impl_gen(case["request"]), r)
     elif "request" in case:
